@@ -977,6 +977,7 @@ class vPeriod(TimeBase):
                     not isinstance(end_or_duration, (datetime, timedelta)):
                 # period = date-time "/" (date-time / dur-value)
                 raise ValueError(ical)
+            vPeriod((start, end_or_duration))  # the start MUST be before the end
             return (start, end_or_duration)
         except Exception:
             raise ValueError(f'Expected period format, got: {ical}')
